@@ -50,6 +50,18 @@ func VerifC17_DeadLockRecovers() {
 	A, B := cs[0], cs[1]
 	ctx := context.Background()
 	lockDir := A.lock.lockPath()
+	// how a holder dies: its process stops (the heartbeat with it), or the context it acquired the lock with ends
+	// without a release -- the property ties the heartbeat to "the holder is alive and its context not cancelled"
+	actx, acancel := context.WithCancel(ctx)
+	defer acancel()
+	byContext := verif.Bool("diesByContextCancellation")
+	die := func() {
+		if byContext {
+			acancel()
+		} else {
+			A.die()
+		}
+	}
 	switch verif.Choice("deathPoint", 4) {
 	case 0: // right after creating the lock directory
 		verif.Assume(lfs.Mkdir(lockDir, 0o755) == nil) // precondition of this harness ("setup"), not a clause of the property
@@ -58,13 +70,13 @@ func VerifC17_DeadLockRecovers() {
 		now := time.Now()
 		verif.Assume(lfs.Chtimes(lockDir, now, now) == nil) // precondition of this harness ("setup"), not a clause of the property
 	case 2: // after the first heartbeat write
-		verif.Assume(A.tryLock(ctx) == nil) // precondition of this harness ("setup"), not a clause of the property
+		verif.Assume(A.tryLock(actx) == nil) // precondition of this harness ("setup"), not a clause of the property
 		verif.Advance(time.Millisecond)
-		A.die()
+		die()
 	case 3: // in steady state
-		verif.Assume(A.tryLock(ctx) == nil) // precondition of this harness ("setup"), not a clause of the property
+		verif.Assume(A.tryLock(actx) == nil) // precondition of this harness ("setup"), not a clause of the property
 		verif.Advance(175 * time.Millisecond)
-		A.die()
+		die()
 	}
 	A.holds = false
 	// not yet: a lock whose last sign of life is at most two periods old is not stale
